@@ -919,4 +919,96 @@ example : molalityResidual (25:ℝ) (molalityToMolarity 25 1 0.101325) 0.101325 
   (molarity_to_molality_root_is_unique 25 0.101325 (by norm_num) (by norm_num) (by norm_num) (by norm_num)).1 1
     (by norm_num) (by norm_num)
 
+/-- Small beads near a surface: at a fixed distance `l` to the surface and the bead's own Stokes drag `γ₀ = 3πη·(2R)`,
+    the hydrodynamically correct spectrum tends to the Lorentzian as `R → 0⁺`, at every frequency `f ≥ 0`. -/
+theorem hydro_surface_small_bead_limit (f fc D eta rhoS rhoB l : ℝ) (hf : 0 ≤ f) (hfc : 0 < fc) (hD : D ≠ 0)
+    (heta : 0 < eta) (hrho : 0 < rhoS) :
+    Tendsto (fun R => hydroPsd f fc D (sphereFriction eta (2 * R)) R rhoS rhoB (some l) / lorentzian f fc D)
+      (𝓝[>] 0) (𝓝 1) := by
+  have hpi := Real.pi_pos
+  let G := surfaceDragOfRadius (f * (Real.pi * rhoS) / eta) l
+  have hG : ContinuousAt G 0 := surfaceDragOfRadius_continuousAt _ l
+  have hG0 : G 0 = (1, 0) := surfaceDragOfRadius_zero _ l
+  have hG1 : ContinuousAt (fun R => (G R).1) 0 := continuousAt_fst.comp hG
+  have hG2 : ContinuousAt (fun R => (G R).2) 0 := continuousAt_snd.comp hG
+  let q : ℝ → ℝ := fun R => f * (4 * Real.pi * R ^ 2 * rhoB) / (9 * eta)
+  let H : ℝ → ℝ := fun R => D / Real.pi ^ 2 * (G R).1 / ((fc + f * ((G R).2 - q R)) ^ 2 + (f * (G R).1) ^ 2)
+  have hL0 : lorentzian f fc D ≠ 0 := by
+    rw [lorentzian_real]
+    have : 0 < f ^ 2 + fc ^ 2 := by positivity
+    positivity
+  have hH : ContinuousAt H 0 := by
+    apply ContinuousAt.div
+    · fun_prop
+    · fun_prop
+    · simp only [hG0, q]; norm_num; positivity
+  have hHL : ContinuousAt (fun R => H R / lorentzian f fc D) 0 := hH.div continuousAt_const hL0
+  have e : H 0 / lorentzian f fc D = 1 := by
+    rw [lorentzian_real]
+    simp only [H, q, hG0]
+    norm_num
+    have : f ^ 2 + fc ^ 2 ≠ 0 := by positivity
+    field_simp
+    ring
+  have h0 : Tendsto (fun R => H R / lorentzian f fc D) (𝓝[>] 0) (𝓝 1) := by
+    have := hHL.tendsto.mono_left (nhdsWithin_le_nhds (s := Set.Ioi 0))
+    rwa [e] at this
+  apply h0.congr'
+  filter_upwards [self_mem_nhdsWithin] with R hR
+  have hR' : 0 < R := hR
+  have hnueq := frequencyNu_stokes eta rhoS R heta hrho hR'
+  have hnu : 0 < frequencyNu (sphereFriction eta (2 * R)) rhoS R := by rw [hnueq]; positivity
+  simp only [hydroPsd, complexDrag_surface f _ rhoS R l hf hnu, hnueq, frequencyM_stokes eta rhoB R hR',
+    surfaceDragNN_of_radius f eta rhoS l R hf heta hrho hR', RealLike.pi, H, q, G]
+  generalize surfaceDragOfRadius (f * (Real.pi * rhoS) / eta) l R = GR
+  have hq : f / (9 * eta / (4 * Real.pi * R ^ 2 * rhoB)) = f * (4 * Real.pi * R ^ 2 * rhoB) / (9 * eta) := by
+    by_cases hb : rhoB = 0
+    · subst hb; simp
+    · field_simp
+  rw [hq]
+  ring
+
+
+example : Tendsto (fun R => hydroPsd 1000 500 2 (sphereFriction (1e-3:ℝ) (2 * R)) R 997 1060 (some 1e-6) / lorentzian 1000 500 2)
+    (𝓝[>] 0) (𝓝 1) :=
+  hydro_surface_small_bead_limit _ _ _ _ _ _ _ (by norm_num) (by norm_num) (by norm_num) (by norm_num) (by norm_num)
+
+/-- Asked in MOLARITY (what the public `viscosity_of_water` / `density_of_water` take): a larger molarity has a larger
+    molality root, hence a larger viscosity and a larger density — for the exact roots of the residual the code solves. -/
+theorem water_functions_increase_with_molarity (t p c₁ c₂ m₁ m₂ : ℝ) (ht0 : 20 ≤ t) (ht1 : t ≤ 150) (hp0 : 0 ≤ p)
+    (hp1 : p ≤ 35) (hc0 : 0 ≤ c₁) (hc12 : c₁ < c₂) (hc6 : c₂ ≤ 6) (h1 : 0 ≤ m₁ ∧ m₁ ≤ 6) (h2 : 0 ≤ m₂ ∧ m₂ ≤ 6)
+    (hr1 : molalityResidual t c₁ p m₁ = 0) (hr2 : molalityResidual t c₂ p m₂ = 0) :
+    m₁ < m₂ ∧ saltViscosity t m₁ p < saltViscosity t m₂ p ∧ saltDensity t m₁ p < saltDensity t m₂ p := by
+  have e1 := (molalityResidual_zero_iff t c₁ p m₁ ht0 ht1 hp0 hp1 hc0 (by linarith) h1.1 h1.2).mp hr1
+  have e2 := (molalityResidual_zero_iff t c₂ p m₂ ht0 ht1 hp0 hp1 (by linarith) hc6 h2.1 h2.2).mp hr2
+  have hm : m₁ < m₂ := by
+    by_contra hc
+    have hle : m₂ ≤ m₁ := not_lt.mp hc
+    rcases eq_or_lt_of_le hle with h | h
+    · rw [h, e1] at e2; linarith
+    · have := molality_to_molarity_increases t p m₂ m₁ ht0 ht1 hp0 hp1 h2.1 h h1.2
+      rw [e1, e2] at this; linarith
+  exact ⟨hm, salt_viscosity_increases_with_concentration t p m₁ m₂ ht0 ht1 hp0 hp1 h1.1 hm h2.2,
+    (salt_density_increases_with_concentration t p m₁ m₂ ht0 ht1 hp0 hp1 h1.1 hm h2.2).2⟩
+
+/-- non-vacuity: the molarities of 1 and 2 mol/kg solutions at 25 °C have exactly these molalities as roots -/
+example : saltViscosity (25:ℝ) 1 0.101325 < saltViscosity (25:ℝ) 2 0.101325 := by
+  have hv := molarity_to_molality_root_is_unique 25 0.101325 (by norm_num) (by norm_num) (by norm_num) (by norm_num)
+  have hmono := molality_to_molarity_increases 25 0.101325 1 2 (by norm_num) (by norm_num) (by norm_num) (by norm_num)
+    (by norm_num) (by norm_num) (by norm_num)
+  have hpos := molality_to_molarity_increases 25 0.101325 0 1 (by norm_num) (by norm_num) (by norm_num) (by norm_num)
+    (by norm_num) (by norm_num) (by norm_num)
+  have h0 : molalityToMolarity (25:ℝ) 0 0.101325 = 0 := by simp [molalityToMolarity]
+  have h6 : molalityToMolarity (25:ℝ) 2 0.101325 ≤ 6 := by
+    obtain ⟨lo, hi⟩ := saltDensity_bounds 25 2 0.101325 (by norm_num) (by norm_num) (by norm_num) (by norm_num)
+      (by norm_num) (by norm_num)
+    rw [molalityToMolarity_real]
+    have hρ : 0 < saltDensity (25:ℝ) 2 0.101325 := by linarith
+    rw [div_div_eq_mul_div, div_le_iff₀ (by norm_num)]
+    linarith
+  exact (water_functions_increase_with_molarity 25 0.101325 _ _ 1 2 (by norm_num) (by norm_num) (by norm_num)
+    (by norm_num) (by rw [← h0]; exact hpos.le) hmono h6 ⟨by norm_num, by norm_num⟩ ⟨by norm_num, by norm_num⟩
+    (hv.1 1 (by norm_num) (by norm_num)) (hv.1 2 (by norm_num) (by norm_num))).2.1
+
+
 end Verif.C20
